@@ -971,8 +971,11 @@ class MetaGrid(object):
 
         # remove 1/10 of a pixel so we don't get a tiles we only touch
         delta = (inset_res or self.grid.resolutions[level]) / 10.0
-        x0, y0, _ = self.grid.tile(bbox[0]+delta, bbox[1]+delta, level)
-        x1, y1, _ = self.grid.tile(bbox[2]-delta, bbox[3]-delta, level)
+        # do not turn a bbox that is thinner than the inset inside out
+        delta_x = min(delta, (bbox[2] - bbox[0]) / 2.0)
+        delta_y = min(delta, (bbox[3] - bbox[1]) / 2.0)
+        x0, y0, _ = self.grid.tile(bbox[0]+delta_x, bbox[1]+delta_y, level)
+        x1, y1, _ = self.grid.tile(bbox[2]-delta_x, bbox[3]-delta_y, level)
 
         meta_size = self._meta_size(level)
 
